@@ -76,7 +76,7 @@ def partition(
     else:  # items is a list
         item_names = items
         if valueof is None:
-            valueof = lambda item: item
+            valueof = lambda item: item.item() if isinstance(item, np.generic) else item   # a Python number, not a numpy scalar: sums of numpy scalars of a narrow dtype (uint8, int16...) overflow
     binner = outputtype.create_binner(valueof)
     bins   = algorithm(binner, numbins, item_names, **kwargs)
     return outputtype.extract_output_from_binsarray(bins)
